@@ -107,16 +107,37 @@ func isASCIIWhitespace(c rune) bool {
 	return c == ' ' || c == '\t' || c == '\n' || c == '\f' || c == '\r'
 }
 
-// srcsetURLs returns the URL of every image candidate of a srcset attribute value.
-// The URL of a candidate ends at the first ASCII whitespace; a descriptor may follow.
+// srcsetURLs returns the URL of every image candidate of a srcset attribute value, split the
+// way the HTML standard parses a srcset attribute: leading whitespace and commas are skipped,
+// the URL runs up to the next ASCII whitespace; when it ends with commas these end the
+// candidate, otherwise a descriptor follows up to the next comma. A comma inside a URL is
+// part of that URL.
 func srcsetURLs(value string) (urls []string) {
-	for _, candidate := range strings.Split(value, ",") {
-		if fields := strings.FieldsFunc(candidate, isASCIIWhitespace); len(fields) > 0 {
-			urls = append(urls, fields[0])
+	i := 0
+	for {
+		for i < len(value) && (isASCIIWhitespace(rune(value[i])) || value[i] == ',') {
+			i++
 		}
-	}
+		if i >= len(value) {
+			return urls
+		}
 
-	return urls
+		start := i
+		for i < len(value) && !isASCIIWhitespace(rune(value[i])) {
+			i++
+		}
+
+		candidate := value[start:i]
+		if strings.HasSuffix(candidate, ",") {
+			candidate = strings.TrimRight(candidate, ",")
+		} else {
+			for i < len(value) && value[i] != ',' {
+				i++
+			}
+		}
+
+		urls = append(urls, candidate)
+	}
 }
 
 func HTMLAssets(item *models.Item) (assets []*models.URL, err error) {
